@@ -18,7 +18,8 @@
 //	                      pending tasks (the comparator tie-break of go-peertaskqueue)
 //	starvation-tie-break  the same, but the winners had at least as many pending tasks and some pops
 //	                      were decided by the heap's tie-break between equal peers
-//	starvation            the same, but at least once the winner had FEWER pending tasks
+//	starvation            the same, but at least once the winner had FEWER pending tasks, or already had
+//	                      a traversal running (more active work than the idle victim)
 //	settle-timeout        the queue did not come to rest
 package workers
 
@@ -222,6 +223,11 @@ func (h *hx) ExecuteTask(ctx context.Context, p peer.ID, task *peertask.Task) bo
 			if pendBefore(pi) == pendBefore(q) {
 				x.sawTie = true
 			} else if pendBefore(pi) < pendBefore(q) {
+				x.sawLess = true
+			}
+			if h.inTrav[pi] > 1 {
+				// the winner already had a traversal running while the victim's peer had none: the
+				// comparator's first criterion (least active work) was not honoured
 				x.sawLess = true
 			}
 			if x.overtakes >= overtakeLimit && !x.reported {
